@@ -15,7 +15,7 @@ from .core import SimAbort  # noqa: F401  (re-exported for engines)
 ALL_NET_KINDS = ("req_loss", "rep_loss", "rep_delay", "rep_dup",
                  "req_delay", "req_dup", "rep_batch")
 CLOCK_KINDS = ("host_stall", "clock_jump_fwd", "clock_jump_back",
-               "spurious_wakeup")
+               "spurious_wakeup", "slow_iterable", "slow_callback")
 MACHINE_KINDS = ("retryable_rc", "fatal_rc", "slow_machine")
 
 
